@@ -18,6 +18,7 @@ from .facts import op_place
 
 TOP = ('top',)
 UNIT = ('unit',)
+TRACING_CRATES = ('tracing', 'tracing_attributes', 'tracing_core')
 
 
 def C(v):
@@ -237,7 +238,8 @@ class Engine:
                 elif k == 'switch':
                     d = self.operand(t['d'], fn, fid, s)
                     d = self._known(d, s)
-                    if not is_c(d) and contains(d, lambda x: isinstance(x, tuple) and x[:2] == ('term', 'tracing')):
+                    if (t['sp'].get('mcrate') in TRACING_CRATES) or (
+                            not is_c(d) and contains(d, lambda x: isinstance(x, tuple) and x[:2] == ('term', 'tracing'))):
                         # tracing macros: assume the disabled branch (tracing has no effect on program state)
                         tg = [a[1] for a in t['arms'] if int(a[0]) == 0]
                         bb = tg[0] if tg else t['otherwise']
@@ -510,6 +512,10 @@ class Engine:
                 return ('term', 'const:' + ty, [C(int(o['bits']))])
             if 'fn' in o:
                 return ('fn', o.get('fnres') or o['fn'], o.get('fnargs', ''))
+            if 'pbytes' in o:
+                v = self.decode_bytes(bytes.fromhex(o['pbytes']), o.get('pty', o['ty']))
+                if v is not None:
+                    return v
             if 'named' in o:
                 return ('sym', 'const ' + o['named'])
             if o['ty'] == '()':
@@ -520,6 +526,25 @@ class Engine:
             return TOP
         root, proj = self.resolve(p, fn, fid, s)
         return self.load(root, proj, s)
+
+    def decode_bytes(self, b, ty):
+        if ty in INT_W and len(b) * 8 >= INT_W[ty]:
+            return C(int.from_bytes(b[:max(1, INT_W[ty] // 8)], 'little'))
+        if ty == 'str':
+            return ('term', 'str', [('sym', b.decode('utf8', 'replace'))])
+        m = re.fullmatch(r'\[u8(; \d+)?\]', ty)
+        if m:
+            return ('arr', [C(x) for x in b])
+        a = self.p.adts.get(ty)
+        if a and not a['enum'] and len(a['variants'][0]['fields']) == 1:
+            inner = self.decode_bytes(b, a['variants'][0]['fields'][0]['ty'])
+            if inner is not None:
+                return ('adt', ty, 0, a['variants'][0]['name'], [inner])
+        if a and a['enum'] and len(b) == 1:
+            for vi, var in enumerate(a['variants']):
+                if int(var['discr']) == b[0] and not var['fields']:
+                    return ('adt', ty, vi, var['name'], [])
+        return None
 
     def discr(self, v, adt, s):
         if isinstance(v, tuple):
@@ -606,6 +631,21 @@ class Engine:
             return ('term', op, [a])
         return TOP
 
+    def purify(self, v, s, depth=0):
+        """replace references by the values they point to, recursively (for printing / term building)"""
+        if depth > 6 or not isinstance(v, tuple):
+            return v
+        k = v[0]
+        if k == 'ref':
+            return self.purify(self.load(v[1], v[2], s), s, depth + 1)
+        if k == 'adt':
+            return ('adt', v[1], v[2], v[3], [self.purify(x, s, depth + 1) for x in v[4]])
+        if k in ('tuple', 'arr'):
+            return (k, [self.purify(x, s, depth + 1) for x in v[1]])
+        if k == 'closure':
+            return (k, v[1], [self.purify(x, s, depth + 1) for x in v[2]])
+        return v
+
     def _deref_val(self, v, s):
         n = 0
         while isinstance(v, tuple) and v[0] == 'ref' and n < 8:
@@ -654,7 +694,8 @@ class Engine:
         args = [self.operand(a, fn, fid, s) for a in t['args']]
         site = (fn['path'], t['sp']['line'])
         mac = t['sp']['mac'] if t['sp']['exp'] else ''
-        ev = ('call', callee, args, site, t.get('callee_args', ''), mac, depth)
+        ev = ('call', callee, args, site, t.get('callee_args', ''), mac, depth,
+              [self.purify(a, s) for a in args])
         s.events.append(ev)
         if t['t'] < 0 and not (callee in self.p.fns):
             # diverging external call: panic
@@ -689,12 +730,12 @@ class Engine:
 
     def opaque_call(self, callee, t, args, s):
         # havoc what is passed by &mut
+        pure = [self.purify(a, s) for a in args]
         for a, aty in zip(args, t.get('atys', ())):
             if aty.startswith('&mut') and isinstance(a, tuple) and a[0] == 'ref':
                 s.nsym += 1
                 old = self.load(a[1], a[2], s)
                 self.store(a[1], a[2], ('term', 'havoc:' + short(callee), [old, C(s.nsym)]), s)
-        pure = [self._deref_val(a, s) for a in args]
         return ('term', 'call:' + short(callee), pure)
 
     # std / idiom summaries --------------------------------------------------------------------------
@@ -992,7 +1033,37 @@ class Engine:
 
 
 def short(path):
-    path = re.sub(r'::<[^<>]*(<[^<>]*>[^<>]*)*>', '', path)
+    """`a::b::Type::<T>::method` -> `Type::method`; `<a::X<..> as b::Trait<..>>::m` -> `X::m`"""
+    if path.startswith('<'):
+        depth = 0
+        for i, ch in enumerate(path):
+            if ch == '<':
+                depth += 1
+            elif ch == '>' and path[i - 1] != '-':
+                depth -= 1
+                if depth == 0:
+                    inner, rest = path[1:i], path[i + 1:]
+                    break
+        else:
+            inner, rest = path, ''
+        # split at top-level " as "
+        d = 0
+        selfty = inner
+        trait = ''
+        for j in range(len(inner)):
+            if inner[j] == '<':
+                d += 1
+            elif inner[j] == '>' and inner[j - 1] != '-':
+                d -= 1
+            elif d == 0 and inner.startswith(' as ', j):
+                selfty = inner[:j]
+                trait = inner[j + 4:]
+                break
+        selfty = re.sub(r'<.*', '', selfty.lstrip('&').replace('mut ', '')).split('::')[-1]
+        if re.fullmatch(r'[A-Z][A-Za-z]?', selfty) and trait:
+            selfty = re.sub(r'<.*', '', trait).split('::')[-1]
+        return selfty + rest
+    path = re.sub(r'::<[^<>]*(<[^<>]*(<[^<>]*>[^<>]*)*>[^<>]*)*>', '', path)
     parts = path.split('::')
     return '::'.join(parts[-2:]) if len(parts) >= 2 else path
 
